@@ -92,7 +92,8 @@ def templates(tier, seed):
     # chains of reuse (an instance that is itself a reuse), computed template ids, templates reading $id
     # templates placed through a transform (polygon, polyline, path), also at offsets that are zero or negative; classes of the
     # reuse element are evaluated where the reuse element stands (before its own bindings apply)
-    for form in ("polygon", "polyline", "path", "class-rebinding", "class-rebinding-loop", "line", "text", "two-valued-binding", "one-valued-binding"):
+    for form in ("polygon", "polyline", "path", "class-rebinding", "class-rebinding-loop", "line", "text", "two-valued-binding", "one-valued-binding",
+                 "group-defaults-wh", "group-defaults-other", "group-defaults-none", "style-both", "style-both-group", "style-reuse-only", "style-template-only", "recursive-bounded"):
         tds.append(dict(fam="reuse-forms2", form=form))
     for form in ("chain-bind", "chain-bind3", "chain-bind-shape", "chain2", "chain2-group", "chain3", "computed-id", "computed-id-loop", "reads-id", "reads-id-class", "reads-id-shadow"):
         tds.append(dict(fam="reuse-forms", form=form))
@@ -373,6 +374,28 @@ def build(td, wrong=False):
         elif form == "one-valued-binding":
             d0 = f'<svg><specs><rect id="t" wh="$size"/></specs><reuse href="#t" size="{W}" x="{X}" y="{Y}"/></svg>'
             d1 = f'<svg><rect xy="{X} {Y}" wh="{W}" class="t"/></svg>'
+        elif form.startswith("group-defaults"):
+            # attributes of a group template are defaults for its content; a binding on the reuse element overrides them,
+            # whatever the name
+            wn, hn = ("width", "height") if form.endswith("wh") else ("w", "h")
+            bind = "" if form.endswith("none") else f' {wn}="{W}"'
+            d0 = f'<svg><specs><g id="box" {wn}="10" {hn}="5"><rect xy="{X} {Y}" wh="${wn} ${hn}"/></g></specs><reuse href="#box"{bind}/></svg>'
+            d1 = f'<svg><g {wn}="{"10" if form.endswith("none") else W}" {hn}="5" class="box"><rect xy="{X} {Y}" wh="{"10" if form.endswith("none") else W} 5"/></g></svg>'
+        elif form.startswith("style-"):
+            # the instance carries the reuse element's style; the template's own style is what it falls back to
+            ts = ' style="stroke:blue"' if form != "style-reuse-only" else ""
+            rs = ' style="fill:red"' if form != "style-template-only" else ""
+            want = ' style="fill:red"' if rs else ts
+            if form == "style-both-group":
+                d0 = f'<svg><specs><g id="t"{ts}><rect xy="{X} {Y}" wh="{W} {H}"/></g></specs><reuse href="#t"{rs}/></svg>'
+                d1 = f'<svg><g{want} class="t"><rect xy="{X} {Y}" wh="{W} {H}"/></g></svg>'
+            else:
+                d0 = f'<svg><specs><rect id="t" wh="$w $h"{ts}/></specs><reuse href="#t" w="{W}" h="{H}" x="{X}" y="{Y}"{rs}/></svg>'
+                d1 = f'<svg><rect xy="{X} {Y}" wh="{W} {H}"{want} class="t"/></svg>'
+        elif form == "recursive-bounded":
+            # a template that reuses itself under an <if> on a bound variable unfolds like its hand-written nesting
+            d0 = (f'<svg><specs><g id="nest"><rect xy="{X} {Y}" wh="$n {W}"/><if test="gt($n, 1)"><reuse href="#nest" n="{{{{$n - 1}}}}"/></if></g></specs><reuse href="#nest" n="3"/></svg>')
+            d1 = (f'<svg><g class="nest"><rect xy="{X} {Y}" wh="3 {W}"/><g class="nest"><rect xy="{X} {Y}" wh="2 {W}"/><g class="nest"><rect xy="{X} {Y}" wh="1 {W}"/></g></g></g></svg>')
         elif form == "class-rebinding":
             d0 = f'<svg><var k="1"/><specs><rect id="t" wh="$w $h"/></specs><reuse href="#t" class="lvl-$k" k="{{{{$k + 1}}}}" w="{W}" h="{H}" x="{X}" y="{Y}"/></svg>'
             d1 = f'<svg><rect xy="{X} {Y}" wh="{W} {H}" class="lvl-1 t"/></svg>'
